@@ -53,7 +53,7 @@ def write_files(root: Path, files: dict):
             p.write_text(text, encoding="utf-8")
 
 
-def parse_project(root: Path, src_dirs=("src",), file_order=None, **options):
+def parse_project(root: Path, src_dirs=("src",), file_order=None, keep_fpp=False, **options):
     """ProjectSettings -> Project -> correlate(). Returns (project, captured stdout).
 
     file_order: optional list of relative paths; when given, the harness owns the order in
@@ -66,7 +66,8 @@ def parse_project(root: Path, src_dirs=("src",), file_order=None, **options):
     opts.update(options)
     settings = ProjectSettings(src_dir=[str(root / d) for d in src_dirs], **opts)
     settings.normalise_paths(root)
-    settings.fpp_extensions = []
+    if not keep_fpp:
+        settings.fpp_extensions = []         # (keep_fpp: the upper-case extensions go through the preprocessor, pcpp in-process)
     buf = io.StringIO()
     orig = fp.find_all_files
     if file_order is not None:
